@@ -332,7 +332,7 @@ SUB_LITERALS = {
 }
 SUB_SAME_VALUE = [('255', '0xFF'), ('0xFF', '255'), ('8', '0o10'), ('5', '0b101'), ('0b101', '5'), ('16', '0x10')]     # same magnitude, other base
 SUB_TEMPLATES = [
-    '{num}', '{num} km', '{num} km to m', '{num} mb to gb', '{num} hours', '{num} minutes 30 seconds', '{num} * 2', '2 * {num}', '{num} to hex',
+    '{num}', '{num} {num2}', '{num} {num2} {num3}', '{num} {num2} {num3} + 1', '{dur} {dur2} {dur3}', '{num} km', '{num} km to m', '{num} mb to gb', '{num} hours', '{num} minutes 30 seconds', '{num} * 2', '2 * {num}', '{num} to hex',
     '{num} to decimal', '{num} to binary', '{num} + {num2}', '({num} + 1) * {num2}', '{num} days + 2 hours', '{num} kg to lb',
     '{date} at {time}', '{date} + {dur}', '{date} - {dur}', '{date} to {date2}', '{date} as unix', '{date} + {num} days', '{date}',
     '{time} + {dur}', '{time} - {dur}', '{time} to CET', '{time} to {time2}', '{time}',
@@ -350,7 +350,7 @@ SUB_NAMES = ['zq', 'wv', 'mk', 'qux', 'zq total', 'wv rate', 'günlük ücret', 
 def substitution_case(rng):
     """-> (program text, reference line, template)"""
     tpl = rng.choice(SUB_TEMPLATES)
-    slots = re.findall(r'\{([a-z]+)(2?)\}', tpl)
+    slots = re.findall(r'\{([a-z]+)([23]?)\}', tpl)
     names = rng.sample(SUB_NAMES, len(slots))
     lines = []
     prog, ref = tpl, tpl
